@@ -381,6 +381,7 @@ type Contract struct {
 	Assumes  []*Clause // unchecked assumptions on entry (listed)
 	Defines  []*Clause // definitional ensures: assumed at call sites, not checked on the body (listed as trusted)
 	CallAsserts []*Clause // `at call <callee> <n> assert <expr>`: Text = "callee#n", E over the caller's locals
+	OnPanic  []*Clause // exceptional postconditions: hold when the function is left by a panic
 	Records  []*Clause // ghost records: Text = ghost var name, E = value (post-state), applied at call sites
 	Modifies []string  // raw items: "T.f", "x.f", "*" , "ghost name"
 	Loops    map[int]*LoopSpec
@@ -577,7 +578,7 @@ func (cs *ContractSet) parseContractFile(pkgPath, file string) {
 			if cur != nil {
 				cur.Props = append(cur.Props, strings.Fields(rest)...)
 			}
-		case "requires", "ensures", "assume", "defines":
+		case "requires", "ensures", "assume", "defines", "onpanic":
 			if cur == nil {
 				errf(ln, "%s outside func block", word)
 				continue
@@ -592,6 +593,8 @@ func (cs *ContractSet) parseContractFile(pkgPath, file string) {
 				cur.Requires = append(cur.Requires, &Clause{Text: rest, E: e, N: len(cur.Requires) + 1})
 			case "ensures":
 				cur.Ensures = append(cur.Ensures, &Clause{Text: rest, E: e, N: len(cur.Ensures) + 1})
+			case "onpanic":
+				cur.OnPanic = append(cur.OnPanic, &Clause{Text: rest, E: e, N: len(cur.OnPanic) + 1})
 			case "defines":
 				cur.Defines = append(cur.Defines, &Clause{Text: rest, E: e, N: len(cur.Defines) + 1})
 				cs.RawScan = append(cs.RawScan, "defines in "+cur.Key+": "+rest)
@@ -689,7 +692,7 @@ func (cs *ContractSet) parseContractFile(pkgPath, file string) {
 			default:
 				errf(ln, "unknown loop clause %q", kind)
 			}
-		case "trusted", "safety", "nopanic", "overflow", "pure", "strings", "atomic-once", "replay", "note", "inline", "nomodel", "constructor", "requires-lock", "holds-lock", "frame", "uses", "refines":
+		case "trusted", "safety", "nopanic", "overflow", "pure", "strings", "atomic-once", "replay", "note", "inline", "nomodel", "constructor", "requires-lock", "holds-lock", "frame", "uses", "refines", "may-panic", "helper":
 			if cur != nil {
 				if rest == "" {
 					rest = "yes"
